@@ -36,6 +36,7 @@ CONSTANTS
   MaxTasks,   \* tasks per history
   MaxSaves,   \* environment checkpoints per history
   Configs,    \* configurations: [hasP : BOOLEAN, kind : {"mem","pickle","none"}, loader : {"default","custom"},
+              \*                  ctx : BOOLEAN (the launcher is constructed with a caller-supplied load_context),
               \*                  arg : {"none","pos","kw","bad"}]
   Classes,    \* process classes: subset of {"Fin", "Exc", "Wait"}
   Fixes,      \* repairs contained in the implementation under test
@@ -81,16 +82,24 @@ ResultOf(p) == IF p.st = "FINISHED" THEN OutReply(p.outs) ELSE ErrReply("Boom")
 
 (* ----------------------------------------------------------------------------------------------- *)
 (* object loaders.  A class name is <<scheme, class>>: scheme "d" = module:name as DefaultObjectLoader   *)
-(* writes it, "c" = the custom loader's own identifier.  The custom loader extends the default one. *)
+(* writes it, "c" = an alias of the custom loader, kept in a table of the configured loader instance *)
+(* (only that instance resolves it).  The custom loader extends the default one.                    *)
 (* ----------------------------------------------------------------------------------------------- *)
 Resolves(loader, scheme) == loader = "custom" \/ scheme = "d"
 \* identify_object of a loader
 Identify(loader) == IF loader = "custom" THEN "c" ELSE "d"
 \* ProcessLauncher.__init__: self._loader = loader if given, else loaders.get_object_loader()
 LauncherLoader(cfg) == cfg.loader
-\* ProcessLauncher.__init__: load_context.copyextend(loader=loader) only if a loader was given; unbundle() then falls back
-\* to the loader named by the bundle, else the global default (_ensure_object_loader; the bundle part belongs to C19)
-ContextLoader(cfg) == IF cfg.loader = "custom" THEN "custom" ELSE "default"
+\* ProcessLauncher.__init__, the load context handed to unbundle():
+\*   self._load_context = load_context if load_context is not None else persistence.LoadSaveContext()
+\* a caller-supplied context carries runtime data and no loader, a fresh one carries nothing: either way no loader yet
+BaseContextLoader(cfg) == IF cfg.ctx THEN "none" ELSE "none"
+\*   if loader is not None: self._load_context = self._load_context.copyextend(loader=loader)
+\* (the configured loader INSTANCE: the custom loader's identifiers live in a table of that instance, no other loader object
+\* resolves them).  Without a configured loader unbundle() falls back to the loader named by the bundle, else the global
+\* default (_ensure_object_loader; the bundle part belongs to C19)
+ContextLoader(cfg) == IF cfg.loader = "custom" THEN "custom"
+                      ELSE IF BaseContextLoader(cfg) = "none" THEN "default" ELSE BaseContextLoader(cfg)
 \* create_*_body(process_class, loader=...): the sender identifies the class with the loader of the configuration
 SenderScheme(cfg) == Identify(cfg.loader)
 \* the name a persister writes: InMemoryPersister(loader=...) uses its save context, PicklePersister always the default
